@@ -48,9 +48,21 @@ fn main() {
     std::panic::set_hook(Box::new(|info| engine::panics::note(info)));
     engine::logcap::install();
     match args[1].as_str() {
-        "run" => std::process::exit(run_parent(&args)),
-        "worker" => std::process::exit(run_worker(&args)),
-        "replay" => std::process::exit(run_replay(&args)),
+        "run" => {
+            let rc = run_parent(&args);
+            engine::logcap::cleanup();
+            std::process::exit(rc)
+        }
+        "worker" => {
+            let rc = run_worker(&args);
+            engine::logcap::cleanup();
+            std::process::exit(rc)
+        }
+        "replay" => {
+            let rc = run_replay(&args);
+            engine::logcap::cleanup();
+            std::process::exit(rc)
+        }
         _ => {
             eprintln!("unknown command");
             std::process::exit(2);
